@@ -82,7 +82,7 @@ print('REPRODUCED' if bad else 'NOT-REPRODUCED'); sys.exit(1 if bad else 0)
 """
 
 
-DEFAULT_SEED_PROGS = ["a = (x * 2.0).sum(); b = (y * 3.0).sum(); a.backward(); b.backward()", "a = x.sum(); b = x.sum(); a.backward(); b.backward()",
+DEFAULT_SEED_PROGS = ["a = (x * 2.0).sum(); b = (y * 3.0).sum(); a.backward(); b.backward()", "a = x.sum(); a.backward(); b = x.sum(); b.backward()",
                       "a = x * 2.0; b = y * 3.0; a.backward(); b.backward()", "a = mg.sum(x * x); a.backward(); b = mg.sum(a * 1.0 + y); b.backward()",
                       "a = (x * 2.0).sum(); a.backward(); c = (y * 1.0).sum(); d = c * 2.0; d.backward()"]
 
